@@ -405,3 +405,96 @@ def undefined_attribute_reads(prog, K, entry_names=None):
                 if isinstance(c.func, ast.Attribute) and isinstance(c.func.value, ast.Name) and c.func.value.id == "self":
                     work.append(c.func.attr)
     return out
+
+
+# --------------------------------------------------------------------------- attributes bound nowhere
+_OBJECT_ATTRS = set("__class__ __dict__ __doc__ __module__ __name__ __init__ __eq__ __ne__ __hash__ __repr__ __str__ __reduce__ __getstate__ "
+                    "__setstate__ __lt__ __gt__ __le__ __ge__ __len__ __iter__ __contains__ __getitem__ __unicode__ __nonzero__ __bool__ __new__ "
+                    "__sizeof__ __reduce_ex__ __dir__ __format__ __subclasshook__ __init_subclass__ __delattr__ __setattr__ __getattribute__ "
+                    "__slots__ __weakref__ __qualname__".split())
+
+
+def _class_binds(classes):
+    out = set()
+    for k in classes:
+        out |= set(k.methods.keys())
+        for st in ast.walk(k.node):
+            if isinstance(st, ast.Attribute) and isinstance(st.ctx, (ast.Store, ast.Del)) and isinstance(st.value, ast.Name) and st.value.id == "self":
+                out.add(st.attr)
+            if isinstance(st, ast.Call) and norm.call_name(st) == "setattr":
+                out.add("*")
+            if isinstance(st, ast.Attribute) and st.attr == "__dict__":
+                out.add("*")
+            if isinstance(st, ast.FunctionDef) and st.name in ("__getattr__", "__getattribute__"):
+                out.add("*")
+        for st in k.node.body:
+            if isinstance(st, ast.Assign):
+                for t in st.targets:
+                    for e in (t.elts if isinstance(t, ast.Tuple) else [t]):
+                        if isinstance(e, ast.Name):
+                            out.add(e.id)
+            elif isinstance(st, ast.ClassDef):
+                out.add(st.name)
+            elif isinstance(st, (ast.Import, ast.ImportFrom)):
+                for a in st.names:
+                    out.add((a.asname or a.name).split(".")[0])
+    return out
+
+
+def externally_stored_attrs(prog):
+    """attribute names assigned through a receiver other than self anywhere in the program (obj.attr = ...)"""
+    r = getattr(prog, "_ext_stores", None)
+    if r is None:
+        r = set()
+        for m in prog.modules.values():
+            for x in ast.walk(m.tree):
+                if isinstance(x, ast.Attribute) and isinstance(x.ctx, ast.Store) and not (isinstance(x.value, ast.Name) and x.value.id == "self"):
+                    r.add(x.attr)
+        prog._ext_stores = r
+    return r
+
+
+def unbound_attribute_reads(prog, K):
+    """(attribute, reading function, line, entry) for `self.X` reads -- in methods reachable from K's public methods, resolved for K --
+    of attributes that nothing binds: not K's class hierarchy (methods, class body), not any `obj.X = ...` in the whole program.
+    Skipped: attributes some strict subclass of K binds (K is then an abstract base for them), readers that test hasattr/getattr or
+    catch AttributeError, classes with foreign bases or dynamic attribute binding."""
+    mro_all = prog.mro(K)
+    if any(isinstance(k, str) and k != "object" for k in mro_all):
+        return []
+    mro = [k for k in mro_all if not isinstance(k, str)]
+    bound = _class_binds(mro)
+    if "*" in bound:
+        return []
+    sub_bound = _class_binds(prog.subclasses(K, strict=True))
+    ext = externally_stored_attrs(prog)
+    resolved = {}
+    for k in mro:
+        for nm, f in k.methods.items():
+            resolved.setdefault(nm, f)
+    entries = [nm for nm in resolved if not nm.startswith("_") or (nm.startswith("__") and nm.endswith("__"))]
+    out = []
+    reported = set()
+    for entry in sorted(entries):
+        seen = set()
+        work = [entry]
+        while work:
+            nm = work.pop()
+            if nm in seen or nm not in resolved:
+                continue
+            seen.add(nm)
+            f = resolved[nm]
+            guarded = any(norm.call_name(c) in ("hasattr", "getattr") for c in norm.calls_in(f.node)) or \
+                any(isinstance(h.type, ast.Name) and h.type.id == "AttributeError" for t_ in ast.walk(f.node) if isinstance(t_, ast.Try)
+                    for h in t_.handlers if h.type is not None)
+            for x in ast.walk(f.node):
+                if isinstance(x, ast.Attribute) and isinstance(x.ctx, ast.Load) and isinstance(x.value, ast.Name) and x.value.id == "self":
+                    a = x.attr
+                    if a in bound or a in _OBJECT_ATTRS or a in ext or a in sub_bound or guarded or (a, f.qualname) in reported:
+                        continue
+                    reported.add((a, f.qualname))
+                    out.append((a, f, x.lineno, entry))
+            for c in norm.calls_in(f.node):
+                if isinstance(c.func, ast.Attribute) and isinstance(c.func.value, ast.Name) and c.func.value.id == "self":
+                    work.append(c.func.attr)
+    return out
